@@ -1,5 +1,7 @@
 """C05 — Vary: a stored variant is only served to requests that select it."""
 import itertools
+import json
+import os
 import re
 
 from kv import Case, xn, xb, xl, xlist, xbool, xparse, xtext
@@ -1251,52 +1253,13 @@ def describe(c):
     return {"component": c.comp, "kind": c.meta.get("kind"), "config": kv.pretty(c.x[1][0], 400), "ops": [kv.pretty(o, 120) for o in ops][:16]}
 
 
-THEOREM_PINS = [
-    ('vary_served_for_equal_tuple',
-     "forall (hstate : Type) (compute : hstate -> request -> bool -> fat * hstate * list bytes) (cache_on ims_on : bool) (parse_ims : bytes -> option Z) (sanitize_ok : request -> bool) (prime : request -> request) (negotiate : request -> fat -> option (N * bytes)) (rules_of : bytes -> list rule) (dbg : bool) (ops : list op) (c : vcache) (hs : hstate) (now : N), InvV hstate compute rules_of c -> exists (l : list (obs * list request)) (st' : vstate hstate) (now' : N), runV hstate compute cache_on ims_on parse_ims sanitize_ok prime negotiate rules_of dbg (c, hs) now ops = Ok l /\\ runV_state hstate compute cache_on ims_on parse_ims sanitize_ok prime negotiate rules_of dbg (c, hs) now ops = Ok (st', now') /\\ InvV hstate compute rules_of (fst st') /\\ Forall2 (obs_ok hstate compute ims_on prime negotiate rules_of) ops l"),
-    ('variants_sorted',
-     "forall (hstate : Type) (compute : hstate -> request -> bool -> fat * hstate * list bytes) (cache_on ims_on : bool) (parse_ims : bytes -> option Z) (sanitize_ok : request -> bool) (prime : request -> request) (negotiate : request -> fat -> option (N * bytes)) (rules_of : bytes -> list rule) (dbg : bool) (ops : list op) (hs : hstate) (now : N), exists (l : list (obs * list request)) (st' : vstate hstate) (now' : N), runV hstate compute cache_on ims_on parse_ims sanitize_ok prime negotiate rules_of dbg ([], hs) now ops = Ok l /\\ runV_state hstate compute cache_on ims_on parse_ims sanitize_ok prime negotiate rules_of dbg ([], hs) now ops = Ok (st', now') /\\ (forall (k : key) (e : ventry), pc_find k (fst st') = Some e -> Sorted.StronglySorted (fun p q : fat * hcoll => cmp_hcoll (snd p) (snd q) = Lt) (vr_resps (ve_var e)) /\\ NoDup (map snd (vr_resps (ve_var e))) /\\ vr_resps (ve_var e) <> [])"),
-    ('lookup_refines_map',
-     'forall (v : varied fat) (r : request), vsorted (vr_resps v) -> let t := headers_for_request (vr_refs v) r in (exists f : fat, vfind t (vr_resps v) = Some f /\\ In (f, t) (vr_resps v) /\\ vr_get_by_request v r = Ok (Hit (f, t))) \\/ vfind t (vr_resps v) = None /\\ (exists L G : list (fat * hcoll), vr_resps v = L ++ G /\\ vr_get_by_request v r = Ok (Miss (Datatypes.length L) t) /\\ Forall (fun q : fat * hcoll => hlt (snd q) t) L /\\ Forall (fun q : fat * hcoll => hlt t (snd q)) G)'),
-    ('insert_refines_map',
-     "forall (L G : list (fat * hcoll)) (f : fat) (t t' : hcoll), vsorted (L ++ G) -> Forall (fun q : fat * hcoll => hlt (snd q) t) L -> Forall (fun q : fat * hcoll => hlt t (snd q)) G -> vsorted (L ++ (f, t) :: G) /\\ vfind t' (L ++ (f, t) :: G) = (if hc_eqb t t' then Some f else vfind t' (L ++ G))"),
-    ('lookup_never_wrong_variant',
-     'forall (v : varied fat) (r : request) (p : fat * hcoll), vr_get_by_request v r = Ok (Hit p) -> In p (vr_resps v) /\\ snd p = headers_for_request (vr_refs v) r'),
-    ('vary_refines_map',
-     'forall (hstate : Type) (compute : hstate -> request -> bool -> fat * hstate * list bytes) (ims_on : bool) (parse_ims : bytes -> option Z) (sanitize_ok : request -> bool) (prime : request -> request) (negotiate : request -> fat -> option (N * bytes)) (rules_of : bytes -> list rule) (dbg : bool) (ops : list op) (hs : hstate) (now : N), always_stored hstate compute -> Forall (op_ok ims_on sanitize_ok prime) ops -> runV hstate compute true ims_on parse_ims sanitize_ok prime negotiate rules_of dbg ([], hs) now ops = Ok (spec_run hstate compute true ims_on prime negotiate rules_of [] hs ops)'),
-    ('computed_once_per_tuple',
-     'forall (hstate : Type) (compute : hstate -> request -> bool -> fat * hstate * list bytes) (ims_on : bool) (parse_ims : bytes -> option Z) (sanitize_ok : request -> bool) (prime : request -> request) (negotiate : request -> fat -> option (N * bytes)) (rules_of : bytes -> list rule) (dbg : bool) (ops : list op) (hs : hstate) (now : N), always_stored hstate compute -> Forall (op_ok ims_on sanitize_ok prime) ops -> Forall (gh_req prime) ops -> exists l : list (obs * list request), runV hstate compute true ims_on parse_ims sanitize_ok prime negotiate rules_of dbg ([], hs) now ops = Ok l /\\ NoDup (map (cls rules_of) (calls_of l)) /\\ (forall r0 : request, In (OReq r0) ops -> In (cls rules_of (prime r0)) (map (cls rules_of) (calls_of l)))'),
-    ('default_applied',
-     'forall (ref : rule) (r : request), (header_get (ru_name ref) r = None -> header_for ref r = (ru_name ref, ru_default ref)) /\\ (forall v : bytes, header_get (ru_name ref) r = Some v -> to_str_ok v = false -> header_for ref r = (ru_name ref, ru_default ref)) /\\ (forall v : bytes, header_get (ru_name ref) r = Some v -> to_str_ok v = true -> header_for ref r = (ru_name ref, ru_xf ref v))'),
-    ('vary_header_eq',
-     'forall (negotiate : request -> fat -> option (N * bytes)) (rules_of : bytes -> list rule) (r : request) (f : fat) (lm cached : bool), let rp := finishV negotiate r f (own_tuple rules_of r) lm cached in (rp_body rp <> [] -> assoc (B "vary") (rp_headers rp) = Some (B "accept-encoding, range" ++ concat (map (fun ru : rule => B ", " ++ ru_name ru) (rules_of (rq_path r))))) /\\ (rp_body rp = [] -> assoc (B "vary") (rp_headers rp) = match negotiate r f with | Some _ => None | None => assoc (B "vary") (f_headers f) end)'),
-    ('stale_position_safe',
-     "forall (hstate : Type) (compute : hstate -> request -> bool -> fat * hstate * list bytes) (cache_on ims_on : bool) (negotiate : request -> fat -> option (N * bytes)) (rules_of : bytes -> list rule) (dbg : bool) (c : vcache) (hs : hstate) (now : N) (p : parked), InvV hstate compute rules_of c -> parked_ok rules_of p -> exists (st' : vstate hstate) (rp : reply) (lg : list bytes), serveV_phase2 hstate compute cache_on ims_on negotiate rules_of dbg c hs now p = Ok (st', rp, lg, [parked_req p]) /\\ InvV hstate compute rules_of (fst st') /\\ own_reply hstate compute negotiate rules_of (parked_req p) rp /\\ snd st' = snd (fst (compute hs (parked_req p) (parked_flag p))) /\\ lg = snd (compute hs (parked_req p) (parked_flag p))"),
-    ('vector_refines_assoc_list',
-     'forall (hstate : Type) (compute : hstate -> request -> bool -> fat * hstate * list bytes) (cache_on ims_on : bool) (parse_ims : bytes -> option Z) (sanitize_ok : request -> bool) (prime : request -> request) (negotiate : request -> fat -> option (N * bytes)) (rules_of : bytes -> list rule) (dbg : bool), (forall (hs : hstate) (r : request) (ok : bool), assoc (B "vary") (f_headers (fst (fst (compute hs r ok)))) = None) -> forall (ops : list op) (cV : vcache) (c : cachex) (hs : hstate) (now : N), InvV hstate compute rules_of cV -> cache_rel rules_of cV c -> exists l : list (obs * list request), runV hstate compute cache_on ims_on parse_ims sanitize_ok prime negotiate rules_of dbg (cV, hs) now ops = Ok l /\\ map (fun oc : obs * list request => obx_of (fst oc)) l = runX hstate (computeX hstate compute) cache_on ims_on true true true true true true status_filter_drop parse_ims sanitize_ok prime no_override (negotiateX negotiate) (vary_tupleX rules_of) (vary_headerX rules_of) redirect_target (c, hs) now (map opx_of ops)'),
-    ('vary_cache_transparent',
-     'forall (hstate : Type) (compute : hstate -> request -> bool -> fat * hstate * list bytes) (ims_on : bool) (parse_ims : bytes -> option Z) (sanitize_ok : request -> bool) (prime : request -> request) (negotiate : request -> fat -> option (N * bytes)) (rules_of : bytes -> list rule) (dbg : bool), (forall (hs : hstate) (r : request) (ok : bool), assoc (B "vary") (f_headers (fst (fst (compute hs r ok)))) = None) -> forall cf : request -> bool -> fat, (forall (hs : hstate) (r : request) (ok : bool), fst (fst (compute hs r ok)) = cf r ok) -> (forall r r\' : request, get_or_head (rq_method r) = true -> get_or_head (rq_method r\') = true -> vary_tuple_of rules_of r = vary_tuple_of rules_of r\' -> rq_path r = rq_path r\' -> (qm (cf r true) = true -> path_query r = path_query r\') -> cf r true = cf r\' true) -> (forall r : request, f_spref (cf r false) = SP_NONE) -> forall (ops : list op) (hs hsU : hstate) (now : N), Forall (op_no_ims ims_on prime) ops -> exists l lU : list (obs * list request), runV hstate compute true ims_on parse_ims sanitize_ok prime negotiate rules_of dbg ([], hs) now ops = Ok l /\\ runV hstate compute false ims_on parse_ims sanitize_ok prime negotiate rules_of dbg ([], hsU) now ops = Ok lU /\\ Forall2 obs_equiv (map fst l) (map fst lU)'),
-    ('stale_position_v0_refuted',
-     '(run_vary_v0 stale_panic_history = XL [XN 2] /\\ run_vary stale_panic_history = stale_panic_history_out) /\\ run_vary_v0 stale_unsorted_history = stale_unsorted_history_out_v0 /\\ run_vary stale_unsorted_history = stale_unsorted_history_out'),
-    ('wire_vary_advertised',
-     'forall (hstate : Type) (compute : hstate -> request -> bool -> fat * hstate * list bytes) (cache_on ims_on : bool) (parse_ims : bytes -> option Z) (sanitize_ok : request -> bool) (prime : request -> request) (negotiate : request -> fat -> option (N * bytes)) (rules_of : bytes -> list rule) (dbg : bool) (package : request -> list (bytes * bytes) -> list (bytes * bytes)) (err416_body : bytes) (ops : list op) (c : vcache) (hs : hstate) (now : N), InvV hstate compute rules_of c -> (forall (r : request) (hs0 : list (bytes * bytes)), assoc (B "vary") (package r hs0) = assoc (B "vary") hs0) -> exists l : list (obs * list request), runV hstate compute cache_on ims_on parse_ims sanitize_ok prime negotiate rules_of dbg (c, hs) now ops = Ok l /\\ Forall2 (fun (o : op) (oc : obs * list request) => match o with | OReq r0 => match fst oc with | ObReply rp _ => forall (san : option (option (N * N))) (w : wreply), send_v rules_of package err416_body true (prime r0) san rp = Ok w -> w_body w <> [] -> assoc (B "vary") (w_headers w) = Some (B "accept-encoding, range" ++ concat (map (fun ru : rule => B ", " ++ ru_name ru) (rules_of (rq_path (prime r0))))) | _ => True end | _ => True end) ops l'),
-    ('send_keeps_vary',
-     'forall (rules_of : bytes -> list rule) (package : request -> list (bytes * bytes) -> list (bytes * bytes)) (err416_body : bytes) (fixed : bool) (r : request) (san : option (option (N * N))) (rp : reply) (w : wreply), (forall (r\' : request) (hs0 : list (bytes * bytes)), assoc (B "vary") (package r\' hs0) = assoc (B "vary") hs0) -> send_v rules_of package err416_body fixed r san rp = Ok w -> ~ (exists (rg : option (N * N)) (e : N), san = Some rg /\\ (rp_status rp =? 304) = false /\\ apply_range true rg (rp_status rp) (send_body rp) = Err e) -> assoc (B "vary") (w_headers w) = assoc (B "vary") (rp_headers rp) /\\ (w_body w <> [] -> rp_body rp <> [])'),
-    ('wire_not_modified_as_is',
-     'forall (rules_of : bytes -> list rule) (package : request -> list (bytes * bytes) -> list (bytes * bytes)) (err416_body : bytes) (fixed : bool) (r : request) (san : option (option (N * N))) (rp : reply), rp_status rp = 304 -> send_v rules_of package err416_body fixed r san rp = Ok {| w_status := 304; w_headers := package r (rp_headers rp); w_body := []; w_last_modified := rp_last_modified rp |}'),
-    ('not_modified_only_for_stored_variant',
-     'forall (hstate : Type) (compute : hstate -> request -> bool -> fat * hstate * list bytes) (cache_on ims_on : bool) (parse_ims : bytes -> option Z) (sanitize_ok : request -> bool) (prime : request -> request) (negotiate : request -> fat -> option (N * bytes)) (rules_of : bytes -> list rule) (dbg : bool) (c : vcache) (hs : hstate) (now : N) (r0 : request) (k : key) (e : ventry) (c1 : vcache), InvV hstate compute rules_of c -> cache_on = true /\\ ims_on = true /\\ vlookup (prime r0) c now = (k, Some e, c1) /\\ sanitize_ok r0 = true /\\ get_or_head (rq_method (prime r0)) = true /\\ (exists (v : bytes) (t : Z), header (B "if-modified-since") (prime r0) = Some v /\\ parse_ims v = Some t /\\ ims_fresh t (ve_created e) = true) -> (forall p : fat * hcoll, vr_get_by_request (ve_var e) (prime r0) = Ok (Hit p) -> serveV hstate compute cache_on ims_on parse_ims sanitize_ok prime negotiate rules_of dbg (c, hs) now r0 = Ok (c1, hs, {| rp_status := 304; rp_headers := []; rp_body := []; rp_identity := []; rp_last_modified := ims_on; rp_from_cache := true |}, [], [])) /\\ (forall (pos : nat) (hc : hcoll), vr_get_by_request (ve_var e) (prime r0) = Ok (Miss pos hc) -> exists (st\' : vstate hstate) (rp : reply) (lg : list bytes), serveV hstate compute cache_on ims_on parse_ims sanitize_ok prime negotiate rules_of dbg (c, hs) now r0 = Ok (st\', rp, lg, [prime r0]) /\\ own_reply hstate compute negotiate rules_of (prime r0) rp)'),
-    ('not_modified_same_entry_sound',
-     'forall (hstate : Type) (compute : hstate -> request -> bool -> fat * hstate * list bytes) (rules_of : bytes -> list rule) (c : vcache) (k : key) (e : ventry) (r r1 : request) (p : fat * hcoll), InvV hstate compute rules_of c -> pc_find k c = Some e -> kpath k = rq_path r -> rq_path r1 = rq_path r -> own_tuple rules_of r1 = own_tuple rules_of r -> vr_get_by_request (ve_var e) r1 = Ok (Hit p) -> vr_get_by_request (ve_var e) r = Ok (Hit p) /\\ snd p = own_tuple rules_of r'),
-    ('entry_changes_are_dated',
-     "forall (hstate : Type) (compute : hstate -> request -> bool -> fat * hstate * list bytes) (cache_on ims_on : bool) (parse_ims : bytes -> option Z) (sanitize_ok : request -> bool) (prime : request -> request) (negotiate : request -> fat -> option (N * bytes)) (rules_of : bytes -> list rule) (dbg : bool) (st : vstate hstate) (now : N) (o : op) (st' : vstate hstate) (now' : N) (ob : obs) (calls : list request), stepV hstate compute cache_on ims_on parse_ims sanitize_ok prime negotiate rules_of dbg st now o = Ok (st', now', ob, calls) -> forall k : key, pc_find k (fst st') = pc_find k (fst st) \\/ pc_find k (fst st') = None \\/ (exists e' : ventry, pc_find k (fst st') = Some e' /\\ ve_created e' = now)"),
-    ('wire_416_without_vary_v0_refuted',
-     '(run_vary_wire_v0 wire416_history = wire416_out_v0 /\\ run_vary_wire wire416_history = wire416_out) /\\ (forall (rules_of : bytes -> list rule) (err416_body : list N) (r : request), err416_body <> [] -> exists (rp : reply) (w : wreply), rp_body rp <> [] /\\ send_v rules_of (fun (_ : request) (hs : list (bytes * bytes)) => hs) err416_body false r (Some (Some (100, 201))) (finishV (fun (_ : request) (_ : fat) => None) r {| f_status := 200; f_headers := []; f_body := B "page"; f_spref := SP_FULL; f_compress := true |} (own_tuple rules_of r) true true) = Ok w /\\ rp = finishV (fun (_ : request) (_ : fat) => None) r {| f_status := 200; f_headers := []; f_body := B "page"; f_spref := SP_FULL; f_compress := true |} (own_tuple rules_of r) true true /\\ w_body w <> [] /\\ assoc (B "vary") (w_headers w) = None)'),
-    ('not_modified_only_for_stored_variant_v0_refuted',
-     '(run_vary_ims_v0 ims_history = ims_history_out_v0 /\\ run_vary ims_history = ims_history_out) /\\ (forall (hstate : Type) (cache_on ims_on : bool) (parse_ims : bytes -> option Z) (sanitize_ok : request -> bool) (prime : request -> request) (negotiate : request -> fat -> option (N * bytes)) (c : vcache) (hs : hstate) (now : N) (r0 : request) (k : key) (e : ventry) (c1 : vcache), cache_on = true /\\ ims_on = true /\\ vlookup (prime r0) c now = (k, Some e, c1) /\\ sanitize_ok r0 = true /\\ get_or_head (rq_method (prime r0)) = true /\\ (exists (v : bytes) (t : Z), header (B "if-modified-since") (prime r0) = Some v /\\ parse_ims v = Some t /\\ ims_fresh t (ve_created e) = true) -> serveV_phase1_v0 hstate cache_on ims_on parse_ims sanitize_ok prime negotiate (c, hs) now r0 = Ok (inl (c1, hs, {| rp_status := 304; rp_headers := []; rp_body := []; rp_identity := []; rp_last_modified := ims_on; rp_from_cache := true |}, [], [])))'),
-    ('honest_not_modified_sound',
-     "forall (hstate : Type) (compute : hstate -> request -> bool -> fat * hstate * list bytes) (cache_on ims_on : bool) (parse_ims : bytes -> option Z) (sanitize_ok : request -> bool) (prime : request -> request) (negotiate : request -> fat -> option (N * bytes)) (rules_of : bytes -> list rule) (dbg : bool) (L : N) (c2 : vcache) (hs2 : hstate) (t1 : N) (ops2 : list op) (c3 : vcache) (hs3 : hstate) (t3 : N) (r r' : request) (f : fat) (k : key) (e : ventry) (c3' : vcache), InvV hstate compute rules_of c2 -> pc_find (key_pq r) c2 = None \\/ pc_find (key_p r) c2 = None -> (exists (k0 : key) (e0 : ventry), (k0 = key_pq r \\/ k0 = key_p r) /\\ pc_find k0 c2 = Some e0 /\\ vr_get_by_request (ve_var e0) r = Ok (Hit (f, own_tuple rules_of r)) /\\ L <= ve_created e0) \\/ pc_find (key_pq r) c2 = None /\\ pc_find (key_p r) c2 = None -> later L t1 ops2 -> runV_state hstate compute cache_on ims_on parse_ims sanitize_ok prime negotiate rules_of dbg (c2, hs2) t1 ops2 = Ok (c3, hs3, t3) -> path_query r' = path_query r -> own_tuple rules_of r' = own_tuple rules_of r -> vlookup r' c3 t3 = (k, Some e, c3') -> ve_created e <= L -> vr_get_by_request (ve_var e) r' = Ok (Hit (f, own_tuple rules_of r'))"),
-    ('served_copy_is_held',
-     "forall (hstate : Type) (compute : hstate -> request -> bool -> fat * hstate * list bytes) (cache_on ims_on : bool), (request -> bool) -> (request -> request) -> forall (negotiate : request -> fat -> option (N * bytes)) (rules_of : bytes -> list rule) (dbg : bool), (forall (r : request) (c : vcache) (now : N) (k : key) (e : ventry) (c1 : vcache) (f : fat), vlookup r c now = (k, Some e, c1) -> vr_get_by_request (ve_var e) r = Ok (Hit (f, own_tuple rules_of r)) -> holds_copy rules_of c1 r f (ve_created e)) /\\ (forall (c1 : vcache) (hs' : hstate) (now : N) (r : request) (f : fat) (lg : list bytes) (lm_of : fat -> bool) (cached : bool) (st' : vstate hstate) (rp : reply) (lg' : list bytes) (calls : list request), may_store cache_on (rq_method r) f = true -> new_and_cache hstate cache_on negotiate rules_of dbg c1 hs' now r f lg lm_of cached = Ok (st', rp, lg', calls) -> holds_copy rules_of (fst st') r f now /\\ rp = finishV negotiate r f (own_tuple rules_of r) (lm_of f) cached) /\\ (forall (c : vcache) (hs : hstate) (now : N) (r : request) (ok : bool) (k : key) (e : ventry) (position : nat) (headers : hcoll) (st' : vstate hstate) (rp : reply) (lg : list bytes) (calls : list request), InvV hstate compute rules_of c -> k = key_pq r \\/ k = key_p r -> pc_find k c = Some e -> vfresh e now = true -> ve_created e <= now -> vr_get_by_request (ve_var e) r = Ok (Miss position headers) -> vary_missing hstate compute cache_on ims_on negotiate rules_of dbg c hs now r ok k position headers = Ok (st', rp, lg, calls) -> rp = finishV negotiate r (fst (fst (compute hs r ok))) (own_tuple rules_of r) ims_on true /\\ (if variant_accepted cache_on k r (fst (fst (compute hs r ok))) then holds_copy rules_of (fst st') r (fst (fst (compute hs r ok))) (ve_created e) else fst st' = c))"),
-]
-THEOREMS = THEOREM_PINS
+# the statements are pinned in driver/props/pins/C05.json (written by tools/mkpins.py C05 after a REVIEWED change of a statement)
+_PINS = json.load(open(os.path.join(os.path.dirname(os.path.abspath(__file__)), "pins", "C05.json")))
+THEOREMS = [(n, _PINS[n]) for n in (
+    "vary_served_for_equal_tuple", "variant_of_the_cached_path", "route_keeps_method_and_headers", "variants_sorted",
+    "lookup_refines_map", "insert_refines_map", "lookup_never_wrong_variant", "vary_refines_map", "computed_once_per_tuple",
+    "default_applied", "vary_header_eq", "vary_lists_every_rule_header", "stale_position_safe", "vector_refines_assoc_list",
+    "vary_cache_transparent", "wire_vary_advertised", "send_keeps_vary", "wire_not_modified_as_is",
+    "not_modified_only_for_stored_variant", "not_modified_same_entry_sound", "entry_changes_are_dated",
+    "honest_not_modified_sound", "served_copy_is_held", "wire_416_without_vary_v0_refuted",
+    "wire_416_internal_route_v0_refuted", "not_modified_only_for_stored_variant_v0_refuted", "stale_position_v0_refuted")]
